@@ -61,6 +61,8 @@ def configs(tier, seed):
         pats = fam.pattern_family(range(0, 3), 2, seed=seed)
         while len(pairs) < len(PAIRS) + 30:
             (pa, ma), (pb, mb) = rnd.choice(pats), rnd.choice(pats)
+            if (sum(ma) - pa - 1) + (sum(mb) - pb - 1) > 7:
+                continue  # every control point of the refinement is a fork (2^n paths)
             pool = sorted(rnd.sample([F(x, 6) for x in range(1, 24)], 4))
             lo, hi = F(rnd.randint(-2, 0)), F(rnd.randint(4, 6))
             va = [lo] + sorted(rnd.sample(pool, len(ma) - 2)) + [hi]
